@@ -11,7 +11,7 @@ import (
 func init() {
 	register(&propInfo{
 		ID:          "C08",
-		Explanation: "Close-once typestate and path analysis of client channels: (R08.1) the caller's channel is closed only inside the buffering goroutine, every close is followed by return on all paths (no further select, send or close), and values are sent to it only from there; (R08.2) every invocation of a sink callback with ok=false is preceded, under the sink lock, by removing the sink from the table it was looked up in (so the close notification, connection loss and client close cannot each close it), and the intake channel is closed only on the ok=false branch of the sink; (R08.3) the sink closer visits every entry of the table, unconditionally, and runs on every loss path before redialling and on every loop exit; (R08.4) the buffering goroutine always selects on the subscription context, whose arm closes the caller's channel and returns, and the sink drops values once that context is done; (R08.5) the forwarder's parallel slices use one removal scheme (otherwise a handler's close closes another caller's channel); (R08.6) a channel-id response sets up its sink once: after delivering it the in-flight entry is removed on every path. (R08.9) the close-when-drained test looks at the buffer itself. (R08.10) no value is dropped by a test of its payload bytes.",
+		Explanation: "Close-once typestate and path analysis of client channels: (R08.1) the caller's channel is closed only inside the buffering goroutine, every close is followed by return on all paths (no further select, send or close), and values are sent to it only from there; (R08.2) every invocation of a sink callback with ok=false is preceded, under the sink lock, by removing the sink from the table it was looked up in (so the close notification, connection loss and client close cannot each close it), and the intake channel is closed only on the ok=false branch of the sink; (R08.3) the sink closer visits every entry of the table, unconditionally, and runs on every loss path before redialling and on every loop exit; (R08.4) the buffering goroutine always selects on the subscription context, whose arm closes the caller's channel and returns, and the sink drops values once that context is done; (R08.5) the forwarder's parallel slices use one removal scheme (otherwise a handler's close closes another caller's channel); (R08.6) a channel-id response sets up its sink once: after delivering it the in-flight entry is removed on every path. (R08.9) the close-when-drained test looks at the buffer itself. (R08.10) no value is dropped by a test of its payload bytes. (R08.11) an element leaves the client-side buffer only when it was handed to the caller; (R08.12) the peer-activity channel is signalled only inside the pong/ping handlers.",
 		NotDecided:  "That termination happens eventually under a given schedule; prefix property of received values beyond ordering (C07) — values are not inspected.",
 		Assumptions: []string{"closing a reflect channel twice panics; a select on a closed intake yields ok=false"},
 		Run:         runC08,
@@ -241,6 +241,117 @@ func runC08(c *Ctx) {
 	c.closeWhenDrained("R08.9")
 	c.rule("R08.8", "every streamed value is decoded into memory allocated for that value")
 	c.freshStreamValue("R08.8")
+	c.rule("R08.12", "a silently dead connection is detected (and the streams on it closed): the peer-activity channel is signalled only inside the pong/ping handlers")
+	c.activityOnlyFromPeer("R08.12")
+	c.rule("R08.11", "a value leaves the client-side buffer only by having been handed to the caller: the element removed is the one offered in the select, in the arm where that send was chosen")
+	c.removedOnlyWhenDelivered("R08.11")
+}
+
+// removedOnlyWhenDelivered: R08.11 (also R07.14). Every removal from the buffering goroutine's list
+// (a) removes the element whose value was put into a send case of the select (not a fresh Front()),
+// and (b) lies in a select arm (chosen == K) in which nothing is pushed — the arm of the send case,
+// not the intake arm. A backlog cap that discards the oldest element leaves the caller with a
+// stream that has a hole in it.
+func (c *Ctx) removedOnlyWhenDelivered(rule string) {
+	buf := c.bufferingGoroutine()
+	if !c.need(rule, "client buffering goroutine", buf != nil) {
+		return
+	}
+	var removes, pushes []*ssa.Call
+	var sendVals []ssa.Value
+	var resets []ssa.Instruction
+	c.bufInstrs(func(in ssa.Instruction) {
+		switch x := in.(type) {
+		case *ssa.Call:
+			switch calleeName(x) {
+			case "(*container/list.List).Remove":
+				removes = append(removes, x)
+			case "(*container/list.List).PushBack", "(*container/list.List).PushFront":
+				pushes = append(pushes, x)
+			case "(*container/list.List).Init":
+				if inLoop(x.Block()) {
+					resets = append(resets, x)
+				}
+			}
+		case *ssa.Store:
+			if fa, ok := x.Addr.(*ssa.FieldAddr); ok && isNamed(fa.X.Type(), "reflect", "SelectCase") {
+				if f := fieldOfAddr(fa); f != nil && f.Name() == "Send" {
+					sendVals = append(sendVals, x.Val)
+				}
+			}
+		}
+	})
+	for _, x := range resets {
+		c.bad(rule, fmt.Sprintf("%s: buffer emptied", fname(x.Parent())), c.ipos(x), "the buffer is re-initialised inside the loop: buffered values are thrown away")
+	}
+	armOf := func(b *ssa.BasicBlock) (int64, bool) {
+		for _, cf := range expandConds(impliedConds(b)) {
+			bo, ok := cf.Cond.(*ssa.BinOp)
+			if !ok || bo.Op != token.EQL || !cf.True {
+				continue
+			}
+			ex, ok := bo.X.(*ssa.Extract)
+			if !ok || ex.Index != 0 {
+				continue
+			}
+			if call, ok := ex.Tuple.(*ssa.Call); !ok || calleeName(call) != "reflect.Select" {
+				continue
+			}
+			if k, ok := constInt(bo.Y); ok {
+				return k, true
+			}
+		}
+		return 0, false
+	}
+	if len(removes) == 0 {
+		c.und(rule, fmt.Sprintf("%s: removal from the buffer", fname(buf)), c.P.pos(buf.Pos()), "no (*list.List).Remove found")
+		return
+	}
+	for _, rm := range removes {
+		construct := fmt.Sprintf("%s: removal from the buffer", fname(rm.Parent()))
+		if len(rm.Common().Args) < 2 {
+			continue
+		}
+		elem := rm.Common().Args[1]
+		// (a) the element is one that was offered to the caller
+		offered := false
+		var fronts []ssa.Value
+		c.dependsOn(elem, func(v ssa.Value) bool {
+			if call, ok := v.(*ssa.Call); ok {
+				switch calleeName(call) {
+				case "(*container/list.List).Front", "(*container/list.List).Back":
+					fronts = append(fronts, v)
+				}
+			}
+			return false
+		}, 0, map[ssa.Value]bool{})
+		for _, f := range fronts {
+			for _, sv := range sendVals {
+				f := f
+				if c.dependsOn(sv, func(v ssa.Value) bool { return v == f }, 0, map[ssa.Value]bool{}) {
+					offered = true
+				}
+			}
+		}
+		if !offered {
+			c.bad(rule, construct, c.ipos(rm), "the element removed is not the one that was offered to the caller in the select (e.g. a fresh Front() when a backlog cap is hit): a value that was never delivered is discarded and the caller sees a stream with a hole in it")
+			continue
+		}
+		// (b) in a select arm without pushes
+		k, ok := armOf(rm.Block())
+		if !ok {
+			c.bad(rule, construct, c.ipos(rm), "the removal is not confined to one arm of the select (it can run when the send to the caller was not the chosen case): an undelivered value is discarded")
+			continue
+		}
+		mixed := false
+		for _, ps := range pushes {
+			if k2, ok := armOf(ps.Block()); ok && k2 == k {
+				mixed = true
+			}
+		}
+		c.check(!mixed, rule, construct, c.ipos(rm), fmt.Sprintf("removes the offered element in arm %d, where nothing is pushed", k),
+			"the removal lies in the intake arm of the select, not in the arm where the send to the caller was chosen: an undelivered value is discarded")
+	}
 }
 
 // loopBodyStart: first instruction of the innermost loop body containing `in` (so that "precedes" is per iteration), or function entry.
